@@ -13,6 +13,23 @@ import (
 	"verifharness/internal/lip58/drv"
 )
 
+// Judged families added for changes that only show across branches / after pruning:
+const (
+	// FamPrivate: byz<1/3 with full thresholds; in addition the Byzantine validators build a
+	// private branch (never shown to an honest validator, extended by Byzantine validators only)
+	// whose first block lowers the precommit threshold towards floor(W/3)+1 for that branch.
+	// Safe: blocks above the change exist on that branch only, carry Byzantine votes only (weight
+	// < W/3 < any legal threshold), so no view finalizes one of them; every other view never sees
+	// those parameters.  What it adds: BFT parameters that differ between branches at one height.
+	FamPrivate = "byz<1/3+private-branch-with-lowered-threshold"
+	// FamRaised: the chain starts with a precommit threshold below floor(2W/3)+1 although
+	// Byzantine validators exist, and a block of the trunk raises it to floor(2W/3)+1 (same
+	// validators and weights).  Judged only if every block at or below the height of that change
+	// lies on one chain (then conflicts can only arise above it, where all branches count with
+	// the full threshold).  Blocks carry aggregate commits, so the superseded parameters are pruned.
+	FamRaised = "byz<1/3+low-threshold-raised-on-trunk-before-any-fork"
+)
+
 // Val is one validator of a scenario.
 type Val struct {
 	ID  int    `json:"id"`
@@ -35,8 +52,13 @@ type Node struct {
 	Parent   int
 	H        Hdr
 	PV, PC   uint32
+	Cert     uint32 // certified height of the chain ending here
+	CommitH  uint32 // height of the aggregate commit carried by this block (0 = empty commit)
 	Children []int
 	Trunk    bool
+	// Private: block of a branch that only Byzantine validators build and that is never shown
+	// to an honest validator
+	Private bool
 	Set      *ParamSet // parameters set by this block (valid from the next height), if any
 	st       *drv.Node
 	ref      *lip58.Model
@@ -140,6 +162,14 @@ type sim struct {
 	chgCertOnly bool
 	chg   *ParamSet
 	limit int
+	// certP: probability that a block carries an aggregate commit (height in (certified,
+	// precommitted] of its parent state, as verifyAggregateCommit demands) when one is possible
+	certP float64
+	// privSet: parameters that the next block added with privNext installs (private branch)
+	privSet  *ParamSet
+	privNext bool
+	// raised: family in which the initial precommit threshold is low and the trunk change raises it
+	raised bool
 }
 
 func (s *sim) logf(f string, a ...any) {
@@ -160,6 +190,16 @@ func toRef(h Hdr) lip58.Header {
 	return lip58.Header{Height: h.Height, Generator: drv.Addr(h.Gen), MaxHeightGenerated: h.MHG, MaxHeightPrevoted: h.MHP}
 }
 
+func toRefCommit(h Hdr, commitH uint32) lip58.Header {
+	rh := toRef(h)
+	if commitH > 0 {
+		rh.CommitHeight, rh.CommitNonEmpty = commitH, true
+	} else {
+		rh.CommitHeight = 0
+	}
+	return rh
+}
+
 // Run generates and executes one scenario from the rng.
 func Run(r *rand.Rand, o Options) *Result {
 	s := &sim{r: r, o: o, res: &Result{Counters: map[string]int{}}, pend: map[int][]int{}, byID: map[int]*val{}}
@@ -172,6 +212,7 @@ func Run(r *rand.Rand, o Options) *Result {
 	if s.res.Err != nil {
 		return s.res
 	}
+	s.prelude()
 	switch s.res.Template {
 	case "random":
 		s.tRandom()
@@ -186,6 +227,50 @@ func Run(r *rand.Rand, o Options) *Result {
 	return s.res
 }
 
+// prelude runs before the template for the families that need a prepared chain.
+func (s *sim) prelude() {
+	r := s.r
+	switch s.res.Family {
+	case FamRaised:
+		// the trunk passes the height of the change and then grows until the superseded
+		// parameters have left the vote window (certificates follow finality, so the pruning
+		// bound min(oldest height of the window, certified+1) passes the change as well)
+		s.trunk(int(s.chgAt-s.res.Genesis) + 3*s.res.Batch + 2 + r.Intn(2*len(s.vals)+1))
+	case FamPrivate:
+		byz := s.byz()
+		if len(byz) == 0 {
+			return
+		}
+		s.trunk(r.Intn(len(s.vals) + 2))
+		if !s.ok() {
+			return
+		}
+		t := s.cur.total()
+		lo := t/3 + 1
+		low := &ParamSet{Vals: append([]Val(nil), s.cur.Vals...), Pre: lo, Cert: s.cur.Cert}
+		if r.Intn(3) == 0 {
+			low.Pre = lo + uint64(r.Int63n(int64((2*t)/3+1-lo)+1))
+		}
+		at := s.honest()[0].tip
+		for i := r.Intn(3); i > 0 && s.node(at).Parent >= 0; i-- {
+			at = s.node(at).Parent
+		}
+		s.privSet, s.privNext = low, true
+		tip := s.byzForge(byz[r.Intn(len(byz))], at, "two-faced")
+		s.privNext = false
+		// the branch runs ahead of everything the honest validators will build
+		for i, n := 0, 2*s.res.Batch+r.Intn(2*s.res.Batch+1); i < n && tip >= 0 && s.ok(); i++ {
+			mode := "two-faced"
+			if r.Intn(4) == 0 {
+				mode = s.randByzMode()
+			}
+			if id := s.byzForge(byz[r.Intn(len(byz))], tip, mode); id >= 0 {
+				tip = id
+			}
+		}
+	}
+}
+
 var templates = []string{"random", "split", "split", "long-split", "lone-finisher", "lone-finisher", "vote-and-leave", "vote-and-leave"}
 
 func (s *sim) setup() {
@@ -197,7 +282,11 @@ func (s *sim) setup() {
 	}
 	fam := s.o.Family
 	if fam == "" {
-		switch x := r.Intn(20); {
+		switch x := r.Intn(24); {
+		case x >= 22:
+			fam = FamRaised
+		case x >= 20:
+			fam = FamPrivate
 		case x < 13:
 			fam = "byz<1/3"
 		case x < 18:
@@ -209,7 +298,12 @@ func (s *sim) setup() {
 		}
 	}
 	res.Family = fam
-	res.Judged = fam == "byz<1/3" || fam == "low-precommit-threshold-no-byz"
+	res.Judged = fam == "byz<1/3" || fam == "low-precommit-threshold-no-byz" || fam == FamPrivate || fam == FamRaised
+	s.raised = fam == FamRaised
+	s.certP = []float64{0, 0.5, 1}[r.Intn(3)]
+	if s.raised {
+		s.certP = []float64{0.5, 1}[r.Intn(2)]
+	}
 	n := 3 + r.Intn(5)
 	if s.o.Thorough && r.Intn(5) == 0 {
 		n = 8 + r.Intn(4)
@@ -242,8 +336,8 @@ func (s *sim) setup() {
 		ps.Vals = append(ps.Vals, Val{ID: i, W: w})
 	}
 	// Byzantine set: as much weight as possible below one third (or none)
-	if fam == "byz<1/3" || fam == "unjudged:low-threshold-with-byz" || fam == "unjudged:validator-change-above-fork" {
-		if r.Intn(8) != 0 {
+	if fam == "byz<1/3" || fam == "unjudged:low-threshold-with-byz" || fam == "unjudged:validator-change-above-fork" || fam == FamPrivate || fam == FamRaised {
+		if r.Intn(8) != 0 || fam == FamPrivate || fam == FamRaised {
 			var bw uint64
 			for _, i := range r.Perm(n) {
 				if 3*(bw+ws[i]) < total {
@@ -258,7 +352,7 @@ func (s *sim) setup() {
 	}
 	ps.Pre = (2*total)/3 + 1
 	switch fam {
-	case "byz<1/3", "unjudged:validator-change-above-fork":
+	case "byz<1/3", "unjudged:validator-change-above-fork", FamPrivate:
 		if r.Intn(10) == 0 {
 			ps.Pre += uint64(r.Int63n(int64(total - ps.Pre + 1)))
 		}
@@ -297,7 +391,7 @@ func (s *sim) setup() {
 	}
 	_ = g.st.SetGenerators(ps.gens())
 	g.st.Commit()
-	g.PV, g.PC = res.Genesis, res.Genesis
+	g.PV, g.PC, g.Cert = res.Genesis, res.Genesis, res.Genesis
 	if s.o.Reference {
 		g.ref = lip58.NewGenesis(res.Genesis, res.Batch)
 		_ = g.ref.SetParameters(ps.Pre, ps.Cert, ps.refValidators())
@@ -310,7 +404,15 @@ func (s *sim) setup() {
 		s.byID[v.ID] = vv
 	}
 	// validator change on the trunk (judged: below every fork) - re-weight / leave / join
-	if r.Intn(4) == 0 || fam == "unjudged:validator-change-above-fork" {
+	if fam == FamRaised {
+		// the trunk raises the precommit threshold to floor(2W/3)+1 (validators and weights kept)
+		// before the first fork; see finish() for the condition under which this is judged
+		n := &ParamSet{Vals: append([]Val(nil), ps.Vals...), Pre: (2*total)/3 + 1, Cert: ps.Cert}
+		s.chg = n
+		s.chgAt = res.Genesis + 1 + uint32(r.Intn(4))
+	} else if fam == FamPrivate {
+		// no trunk change: the private branch changes the parameters
+	} else if r.Intn(4) == 0 || fam == "unjudged:validator-change-above-fork" {
 		s.planChange()
 	} else if r.Intn(3) == 0 {
 		n := &ParamSet{Vals: append([]Val(nil), ps.Vals...), Pre: ps.Pre, Cert: ps.Cert}
@@ -412,8 +514,19 @@ func (s *sim) addBlock(parent int, gen int, mhg uint32, who string) int {
 	}
 	p := s.node(parent)
 	h := Hdr{Height: p.H.Height + 1, Gen: gen, MHG: mhg, MHP: p.PV}
-	rh := toRef(h)
-	bh := drv.MakeHeader(rh, drv.CommitEmpty, nil, uint32(len(s.res.Nodes)))
+	// aggregate commit: any height above the certified and up to the precommitted height of the
+	// parent state (the range verifyAggregateCommit admits; signatures are C06's subject)
+	var commitH uint32
+	kind := drv.CommitEmpty
+	if s.certP > 0 && p.PC > p.Cert && s.r.Float64() < s.certP {
+		commitH = p.PC
+		if s.r.Intn(3) == 0 {
+			commitH = p.Cert + 1 + uint32(s.r.Intn(int(p.PC-p.Cert)))
+		}
+		kind = drv.CommitBoth
+	}
+	rh := toRefCommit(h, commitH)
+	bh := drv.MakeHeader(rh, kind, nil, uint32(len(s.res.Nodes)))
 	// validity as the engine's verifyBlock sees it (maxHeightPrevoted is right by construction)
 	contra, err := s.mod.API().IsHeaderContradictingChain(p.st.Store(), bh.Readonly())
 	p.st.Discard()
@@ -440,7 +553,10 @@ func (s *sim) addBlock(parent int, gen int, mhg uint32, who string) int {
 		return -1
 	}
 	id := len(s.res.Nodes)
-	n := &Node{ID: id, Parent: parent, H: h, Trunk: false}
+	n := &Node{ID: id, Parent: parent, H: h, Trunk: false, CommitH: commitH, Private: p.Private || s.privNext}
+	if commitH > 0 {
+		s.count("blocks_with_aggregate_commit", 1)
+	}
 	n.st = p.st.Fork(suffix(id))
 	if err := n.st.Process(bh); err != nil {
 		s.res.Err = fmt.Errorf("BeforeTransactionsExecute failed on node %d: %w", id, err)
@@ -455,7 +571,7 @@ func (s *sim) addBlock(parent int, gen int, mhg uint32, who string) int {
 	}
 	// parameter change installed by the block at height chgAt (on every branch reaching that
 	// height, so that it is a function of the height only)
-	if s.chg != nil && h.Height == s.chgAt {
+	if s.chg != nil && h.Height == s.chgAt && !n.Private {
 		if err := n.st.SetParams(s.chg.Pre, s.chg.Cert, s.chg.refValidators()); err != nil {
 			s.res.Err = err
 			return -1
@@ -471,13 +587,29 @@ func (s *sim) addBlock(parent int, gen int, mhg uint32, who string) int {
 			s.count("certificate_threshold_changes_applied_above_a_fork", 1)
 		}
 	}
+	if s.privNext {
+		// first block of the private branch: lowers the precommit threshold for its descendants
+		s.privNext = false
+		if err := n.st.SetParams(s.privSet.Pre, s.privSet.Cert, s.privSet.refValidators()); err != nil {
+			s.res.Err = err
+			return -1
+		}
+		n.Set = s.privSet
+		if n.ref != nil {
+			_ = n.ref.SetParameters(s.privSet.Pre, s.privSet.Cert, s.privSet.refValidators())
+		}
+		s.count("private_branch_parameter_changes", 1)
+	}
 	n.st.Commit()
-	pv, pc, _, err := s.mod.API().GetBFTHeights(n.st.Store())
+	pv, pc, ct, err := s.mod.API().GetBFTHeights(n.st.Store())
 	if err != nil {
 		s.res.Err = err
 		return -1
 	}
-	n.PV, n.PC = pv, pc
+	n.PV, n.PC, n.Cert = pv, pc, ct
+	if ct > p.Cert {
+		s.count("certified_height_raises", 1)
+	}
 	if n.ref != nil {
 		for _, mm := range drv.Compare(s.mod.API(), n.st.Store(), n.ref, drv.CompareOpts{BelowWindow: true}) {
 			s.res.RefMismatches = append(s.res.RefMismatches, RefMismatch{Node: id, Key: mm.Key, Detail: mm.Detail})
@@ -517,6 +649,9 @@ func (s *sim) byz() []*val {
 func (s *sim) deliver(v *val, id int) {
 	if id < 0 || v.known[id] {
 		return
+	}
+	if s.node(id).Private && !v.Byz {
+		return // a private Byzantine branch is never shown to an honest validator
 	}
 	for a := id; a >= 0 && !v.known[a]; a = s.node(a).Parent {
 		v.known[a] = true
@@ -1179,7 +1314,7 @@ func (s *sim) finish() {
 		s.count("honest_header_pairs_checked", len(v.signed)*(len(v.signed)-1)/2)
 	}
 	// Byzantine weight below one third in every parameter set in force
-	for _, ps := range []*ParamSet{res.Initial, s.chg} {
+	for _, ps := range []*ParamSet{res.Initial, s.chg, s.privSet} {
 		if ps == nil {
 			continue
 		}
@@ -1191,6 +1326,42 @@ func (s *sim) finish() {
 		}
 		if 3*bw >= ps.total() {
 			res.Hypothesis = "Byzantine weight not below one third"
+		}
+	}
+	// a private branch is built by Byzantine validators only
+	byzID := map[int]bool{}
+	for _, v := range s.vals {
+		byzID[v.ID] = v.Byz
+	}
+	for _, n := range res.Nodes {
+		if n.Private {
+			s.count("private_branch_blocks", 1)
+			if !byzID[n.H.Gen] {
+				res.Hypothesis = fmt.Sprintf("honest validator %d generated block %d of the private branch", n.H.Gen, n.ID)
+			}
+		}
+	}
+	// FamRaised is judged only if no fork exists at or below the height of the change, and the
+	// change was installed
+	if s.raised && res.Judged {
+		perHeight := map[uint32]int{}
+		installed := false
+		for _, n := range res.Nodes {
+			if n.H.Height <= s.chgAt {
+				perHeight[n.H.Height]++
+			}
+			if n.Set == s.chg && n.ID != 0 {
+				installed = true
+			}
+		}
+		for _, c := range perHeight {
+			if c > 1 {
+				installed = false
+			}
+		}
+		if !installed {
+			res.Judged = false
+			res.Family = "unjudged:fork-at-or-below-the-threshold-raise"
 		}
 	}
 	// a parameter change above a fork point is outside the judged families
